@@ -30,7 +30,7 @@ mod builtin_imports {
 
     pub(crate) use std::{
         cmp::Ordering,
-        collections::{BTreeMap, BTreeSet},
+        collections::BTreeSet,
         sync::Arc,
     };
 }
